@@ -1052,7 +1052,13 @@ class Machine(object):
             if tgt.loops:
                 raise Undefined("jump_into_loop")
         elif tgt.loops != self.flat[src].loops:
-            raise Undefined("jump_across_loop_boundary")
+            sl = self.flat[src].loops
+            # leaving loops by a forward jump into the text of an enclosing loop (or to the top level) is ordinary BASIC;
+            # jumps into a loop, and backwards out of one, are not given a meaning here
+            if len(tgt.loops) < len(sl) and sl[:len(tgt.loops)] == tgt.loops and p > src:
+                self.count("goto_out_of_loop")
+            else:
+                raise Undefined("jump_across_loop_boundary")
         return p
 
     def next_line_start(self, p):
@@ -1155,11 +1161,22 @@ class Machine(object):
                     loops.append(("FOR", pc, a[1], lim, st))
                     pc += 1
             elif k == "next":
-                if not any(l[0] == "FOR" for l in loops):
+                # ordinary BASIC: NEXT v continues the innermost active FOR v of this subroutine level; loops begun
+                # inside it and left early (GOTO out of the loop) are discarded
+                base = self._last_gosub(loops) + 1 if any(l[0] == "GOSUB" for l in loops) else 0
+                idx = None
+                for q in range(len(loops) - 1, base - 1, -1):
+                    if loops[q][0] == "FOR" and loops[q][2] == a[1]:
+                        idx = q
+                        break
+                if idx is None:
                     raise BasicError("NEXT without FOR", ln)
-                top = loops[-1]
-                if top[0] != "FOR" or top[2] != a[1] or s.match != top[1]:
+                top = loops[idx]
+                if s.match != top[1]:
                     raise Undefined("next_not_matching_innermost_for")
+                if idx != len(loops) - 1:
+                    self.count("next_discards_loops_left_early")
+                    del loops[idx + 1:]
                 x = self.vars.get(a[1], Num(0.0))
                 x = num(x.v + top[4].v, x.e + top[4].e)
                 self.vars[a[1]] = x
@@ -1173,14 +1190,10 @@ class Machine(object):
                 c = self.truth(self.ev(a[1], ln), ln)
                 self.count("stmt_while")
                 if c:
-                    if not (loops and loops[-1] == ("WHILE", pc)):
-                        loops.append(("WHILE", pc))
+                    loops.append(("WHILE", pc))
                     pc += 1
                 else:
-                    if loops and loops[-1] == ("WHILE", pc):
-                        loops.pop()
-                    else:
-                        self.count("while_zero_trip")
+                    self.count("while_zero_trip")
                     if s.match is None:
                         if self.misplaced_loop_word:
                             raise Undefined("loop_keyword_inside_statement")
@@ -1191,13 +1204,34 @@ class Machine(object):
                     self.regular_region(pc, s.match)
                     pc = s.match + 1
             elif k == "wend":
-                if not any(l[0] == "WHILE" for l in loops):
+                base = self._last_gosub(loops) + 1 if any(l[0] == "GOSUB" for l in loops) else 0
+                idx = None
+                for q in range(len(loops) - 1, base - 1, -1):
+                    if loops[q][0] == "WHILE":
+                        idx = q
+                        break
+                if idx is None:
                     raise BasicError("WEND without WHILE", ln)
-                top = loops[-1]
-                if top[0] != "WHILE" or s.match != top[1]:
+                if s.match is None:
                     raise Undefined("wend_not_matching_innermost_while")
-                self.count("while_iteration")
-                pc = top[1]
+                if loops[idx][1] != s.match:
+                    # the WHILE of this WEND is active, but an inner WHILE that was left early (GOTO) is still on record:
+                    # recorded finding - the engine resumes that inner loop instead of this one
+                    if any(l == ("WHILE", s.match) for l in loops[base:]):
+                        raise Undefined("known_wend_after_early_exit_from_inner_while")
+                    raise Undefined("wend_not_matching_innermost_while")
+                if idx != len(loops) - 1:
+                    self.count("wend_discards_loops_left_early")
+                    del loops[idx + 1:]
+                w = flat[s.match]
+                if w.ast is None:
+                    w.ast = Parser(w.toks, w.line).statement()
+                if self.truth(self.ev(w.ast[1], w.line), w.line):
+                    self.count("while_iteration")
+                    pc = s.match + 1
+                else:
+                    loops.pop()
+                    pc += 1
             elif k == "goto":
                 self.count("stmt_goto")
                 pc = self.jump(pc, a[1], ln)
@@ -1213,10 +1247,12 @@ class Machine(object):
             elif k == "return":
                 if not any(l[0] == "GOSUB" for l in loops):
                     raise BasicError("RETURN without GOSUB", ln)
-                if loops[-1][0] != "GOSUB":
-                    raise Undefined("return_inside_loop")
+                g = self._last_gosub(loops)
+                if g != len(loops) - 1:
+                    self.count("return_from_inside_loop")      # loops begun in the subroutine end with it
                 self.count("stmt_return")
-                pc = loops.pop()[1]
+                pc = loops[g][1]
+                del loops[g:]
             elif k == "on":
                 x = need_num(self.ev(a[2], ln), ln)
                 fr = x.v - math.floor(x.v)
@@ -1472,6 +1508,7 @@ class Gen(object):
         self.cur_sub = None
         self.features = set()
         self.ncall = 0
+        self.nest = []                     # enclosing loops of the current routine: dicts kind / var / range / exit label
         self.sfx = ""                      # loop variables and counters are private to a routine (main / each subroutine)
 
     # -- helpers
@@ -1896,6 +1933,40 @@ class Gen(object):
         vs = [x ** y for x in (a.lo, a.hi) for y in (e.lo, e.hi)]
         return Nd(bt + self.sp("^") + et, P_POW, min(vs), max(vs))
 
+    def neg_power(self):
+        """negative base with an integer exponent of either sign and parity: literal, integer variable expression or a
+        loop variable running through negative values; the sign of the result is visible (never 0^x, a^b^c, -a^b)"""
+        self.avoid("power_base_nonzero_by_construction")
+        c = self.sel(5)
+        if c < 3:
+            b = self.r.randint(1, 9)
+            bt, bmax, bmin = "(-" + str(b) + ")", float(b), float(b)
+        elif c < 5:
+            b = self.r.randint(1, 9) + 0.5
+            bt, bmax, bmin = "(-" + _fmt_num(b) + ")", b, b
+        else:
+            bt, bmax, bmin = "(-" + self.name(self.pick(POS_NAMES)) + ")", 1e6, 1e-3
+        c = self.sel(5)
+        if bmax > 100:
+            e = self.pick([-2, -1, 1, 2, 3])
+            et, elo, ehi = (str(e) if e > 0 else self.pick(["-%d", "(-%d)"]) % -e), e, e
+        elif c < 3:
+            e = self.r.randint(-6, 7)
+            et, elo, ehi = (str(e) if e >= 0 else self.pick(["-%d", "(-%d)"]) % -e), e, e
+        else:
+            cands = [(n, v) for n, v in self.loopvars.items() if v[2] and v[0] >= -8 and v[1] <= 8] + \
+                    [(n, (v[0], v[1], True)) for n, v in self.counters.items() if v[1] <= 8]
+            if cands and c < 5:
+                n, v = self.pick(cands)
+                et, elo, ehi = self.name(n), v[0], v[1]
+            else:
+                x = self.clean(self.fit_int(self.int_expr(1), 0, 8))
+                k = self.r.randint(0, 5)
+                et, elo, ehi = "(" + self.at(x, P_ADD) + self.sp("-") + str(k) + ")", -k, 8 - k
+        m = max(abs(elo), abs(ehi))
+        big = max(bmax ** m, (1.0 / bmin) ** m)
+        return self.bound(Nd(bt + self.sp("^") + et, P_POW, -big, big))
+
     def real_atom(self):
         c = self.sel(9)
         if c < 3:
@@ -1976,16 +2047,8 @@ class Gen(object):
             hi = max(abs(a.lo), abs(a.hi))
             return self.bound(Nd(self.kw(f) + "(" + a.txt + ")", P_ATOM, 0.0, hi if f == "ABS" else hi * hi, a.isint))
         if c == 19:
-            if self.chance(0.35):
-                # negative base, integer exponent: the sign of the result is visible here
-                self.avoid("power_base_nonzero_by_construction")
-                b = self.r.randint(1, 9)
-                e = self.r.randint(0, 7)
-                v = float(-b) ** e
-                bt = "(-" + str(b) + ")" if self.chance(0.7) else "(-" + _fmt_num(b + 0.5) + ")"
-                if "." in bt:
-                    v = (-(b + 0.5)) ** e
-                return Nd(bt + self.sp("^") + str(e), P_POW, v, v)
+            if self.chance(0.45):
+                return self.neg_power()
             return self.power(d - 1)
         if c == 20:
             # VAL of clean numeric text
@@ -2082,7 +2145,7 @@ class Gen(object):
             if k == 4:
                 start = ln_ + self.sp("+") + str(self.r.randint(2, 9))             # always beyond the end
             elif k == 5:
-                start = "1" + self.sp("+") + ln_ + self.sp("+") + self.clean(self.fit_int(self.int_expr(1), 0, 3)).txt
+                start = "1" + self.sp("+") + ln_ + self.sp("+") + self.at(self.clean(self.fit_int(self.int_expr(1), 0, 3)), P_MUL)
             elif k == 0:
                 i = self.clean(self.fit_int(self.int_expr(1), 0, 10 ** 6))
                 start = "1" + self.sp("+") + self.kw("FLOOR") + "((" + self.at(i, P_MUL + 1) + self.sp("MOD") + "(" + ln_ + self.sp("+") + "1))" + self.sp("+") + "0.5)"
@@ -2265,9 +2328,17 @@ class Gen(object):
         return out
 
     def stmt(self, depth, d):
-        c = self.sel(29)
+        if self.nest and self.chance(0.18):
+            return self.exit_stmt(d)
+        if self.nest and self.cur_sub is not None and self.chance(0.05):
+            # RETURN from inside loops of the subroutine: the loops end with it
+            self.features.add("return_in_loop")
+            return [[None, self.kw("IF") + " " + self.loop_condition(d) + " " + self.kw("THEN") + " " + self.kw("RETURN")]]
+        c = self.sel(31)
         if self.mult * 4 > 3000 or depth <= 0:
             c = c % 14
+        if c >= 30:
+            return self.nested_exit(depth, d)
         if c < 9:
             return [self.simple_line(d)]
         if c < 13:
@@ -2291,6 +2362,59 @@ class Gen(object):
             self.features.add("early_end")
             return [[None, self.kw("IF") + " " + self.condition(d).txt + " " + self.kw("THEN") + " " + self.kw("END")]]
         return [self.simple_line(d)]
+
+    def loop_condition(self, d):
+        """condition that usually depends on the innermost loop's variable, so that it fires in some iteration"""
+        e = self.nest[-1]
+        if self.chance(0.6):
+            lo, hi = e["range"]
+            k = self.r.randint(int(math.floor(lo)), int(math.ceil(hi)))
+            return self.name(e["var"]) + self.sp(self.pick([">=", "<=", "=", ">", "<"])) + (str(k) if k >= 0 else "-" + str(-k))
+        return self.condition(d).txt
+
+    def nested_exit(self, depth, d):
+        """a loop inside a loop, the inner one left early by GOTO, so that the NEXT / WEND of the outer loop finds the
+        abandoned inner loop still on record (WHILE in WHILE excluded, see exit_stmt)"""
+        outer, inner = self.pick([("FOR", "WHILE"), ("FOR", "WHILE"), ("FOR", "FOR"), ("WHILE", "FOR")])
+        self.features.add("nested_loop_exit_" + outer.lower() + "_" + inner.lower())
+        if outer == "FOR":
+            return self.for_loop(max(depth, 2), d, inner=inner)
+        return self.while_loop(max(depth, 2), d, inner=inner)
+
+    def loop_body(self, depth, d, inner, force_exit):
+        """statements of a loop body; a forced early exit and a forced inner loop are placed between whole statements"""
+        chunks = [self.stmt(depth - 1, d) for _ in range(self.small(depth))]
+        if force_exit:
+            chunks.insert(self.r.randint(0, len(chunks)), self.exit_stmt(d, 1))
+        if inner:
+            lines = self.for_loop(depth - 1, d, force_exit=True) if inner == "FOR" else self.while_loop(depth - 1, d, force_exit=True)
+            chunks.insert(self.r.randint(0, len(chunks)), lines)
+        return [l for c in chunks for l in c]
+
+    def exit_stmt(self, d, k=None):
+        """leave the innermost loop (or the two innermost) early by a forward jump to the line after its end.
+        Excluded (recorded finding): leaving a WHILE whose next enclosing loop is a WHILE - the outer WEND would
+        resume the abandoned inner loop."""
+        if k is None:
+            k = 2 if len(self.nest) >= 2 and self.chance(0.25) else 1
+        left, rest = self.nest[-k:], self.nest[:-k]
+        has_while = any(e["kind"] == "WHILE" or e.get("stale_while") for e in left)
+        if has_while and rest and rest[-1]["kind"] == "WHILE":
+            self.avoid("exit_from_while_directly_inside_while")
+            return [self.simple_line(d)]
+        if has_while and rest:
+            rest[-1]["stale_while"] = True      # abandoned WHILE records stay until the NEXT of this FOR
+        tgt = self.nest[-k]
+        if tgt["exit"] is None:
+            tgt["exit"] = self.label()
+        self.features.add("loop_exit_goto")
+        self.cost += 2 * self.mult
+        form = self.sel(2)
+        jump = tgt["exit"] if form == 0 else self.kw("GOTO") + " " + tgt["exit"]
+        pre = ""
+        if form == 2:
+            pre = self.simple(d) + " : "
+        return [[None, self.kw("IF") + " " + self.loop_condition(d) + " " + self.kw("THEN") + " " + pre + jump]]
 
     def small(self, depth):
         return self.r.randint(1, 3 if depth > 1 else 2)
@@ -2321,7 +2445,7 @@ class Gen(object):
         self.cost += 2 * self.mult
         return out
 
-    def for_loop(self, depth, d):
+    def for_loop(self, depth, d, inner=None, force_exit=False):
         free = [n + self.sfx for n in LOOP_NAMES if n + self.sfx not in self.loopvars]
         if not free:
             return [self.simple_line(d)]
@@ -2341,6 +2465,10 @@ class Gen(object):
             a = self.r.randint(-2, 8)
             trips = self.r.randint(0, 6) if self.chance(0.85) else 0
             st = -self.pick([1, 1, 2, 3])
+            if self.chance(0.25):
+                a = self.r.randint(1, 3)          # FOR k = 3 TO -3 STEP -1: runs through negative values
+                st = -1
+                trips = 2 * a + 1
             b = a + st * (trips - 1) - self.r.randint(0, -st - 1) if trips > 0 else a + self.r.randint(1, 3)
             head = "%s = %d %s %d %s %d" % (self.name(v), a, self.kw("TO"), b, self.kw("STEP"), st)
             lo, hi = min(a, b + st), a
@@ -2371,7 +2499,10 @@ class Gen(object):
         old = self.mult
         self.mult = old * trips
         self.features.add("for")
-        body = self.block(self.small(depth), depth - 1, d)
+        ent = {"kind": "FOR", "var": v, "range": (lo, hi), "exit": None}
+        self.nest.append(ent)
+        body = self.loop_body(depth, d, inner, force_exit)
+        self.nest.pop()
         self.mult = old
         self.cost += (trips + 2) * old
         nxt = self.kw("NEXT") + " " + self.name(v)
@@ -2380,6 +2511,8 @@ class Gen(object):
             out = [[None, self.kw("FOR") + " " + head + " : " + body[0][1] + " : " + nxt]]
         else:
             out = [[None, self.kw("FOR") + " " + head]] + body + [[None, nxt]]
+        if ent["exit"]:
+            out.append([ent["exit"], self.simple_line(d)[1] if self.chance(0.5) else self.kw("REM") + " after loop"])
         del self.loopvars[v]
         self.frozen.discard(v)
         # after the loop the variable holds the first value beyond the limit: still usable as a real
@@ -2394,7 +2527,7 @@ class Gen(object):
         free = [n + self.sfx for n in CNT_NAMES if n + self.sfx not in self.counters]
         return self.pick(free) if free else None
 
-    def while_loop(self, depth, d):
+    def while_loop(self, depth, d, inner=None, force_exit=False):
         w = self.new_counter()
         if w is None:
             return [self.simple_line(d)]
@@ -2421,7 +2554,10 @@ class Gen(object):
         self.frozen.add(w)
         old = self.mult
         self.mult = old * max(k, 1)
-        body = self.block(self.small(depth), depth - 1, d)
+        ent = {"kind": "WHILE", "var": w, "range": rng, "exit": None}
+        self.nest.append(ent)
+        body = self.loop_body(depth, d, inner, force_exit)
+        self.nest.pop()
         self.mult = old
         self.cost += (2 * k + 3) * old
         del self.counters[w]
@@ -2434,6 +2570,8 @@ class Gen(object):
         if not first:
             out.append([None, stepst])
         out.append([None, self.kw("WEND")])
+        if ent["exit"]:
+            out.append([ent["exit"], self.simple_line(d)[1] if self.chance(0.5) else self.kw("REM") + " after loop"])
         return out
 
     def goto_loop(self, depth, d):
@@ -2548,6 +2686,7 @@ class Gen(object):
         sub_items = {}
         for s in range(self.nsubs - 1, -1, -1):
             self.cur_sub = s
+            self.nest = []
             self.sfx = "_s%d" % s
             self.sub_label[s] = "@S%d@" % s
             c0, p0, r0 = self.cost, self.punches, self.reads
@@ -2567,6 +2706,7 @@ class Gen(object):
             self.sub_reads[s] = self.reads
             self.cost, self.punches, self.reads = c0, p0, r0
         self.cur_sub = None
+        self.nest = []
         self.sfx = ""
         self.mult = 1
         main = self.block(self.size, depth, d)
